@@ -5,23 +5,25 @@ import json, os, subprocess
 
 # additions of the fourth round of seeded changes (appended to the texts above)
 EXTRA = {
+ "C15": "  Flags arguments with access mode 3 and garbage bits through open, openat and openat2.",
+ "C08": "  Raw rlimit entries beside the named limits.",
  "C01": "  Syscall-name lookups (as the tracer makes them, x32 numbers included) are issued between the builds.",
  "C02": "  Pathnames also go through the program's own descriptor links (/proc/self/fd/N, /dev/fd/N) whose targets are longer than 64 bytes.",
  "C03": "  The configured ban error changes from batch to batch within one process.",
- "C04": "  Also a launcher whose real ids differ from its effective ids.",
- "C05": "  One base mount table is handed to two builders; a read-only bind whose source file system is read-only as a whole only during set-up is written to after the file system became writable again.",
+ "C04": "  Also a launcher whose real ids differ from its effective ids.  Containers whose program runs under a generated credential (the ids inside are the configured ones); eight goroutines launching with different explicit id mappings at the same time; the blocked-signal set of the start state shows through C09.",
+ "C05": "  One base mount table is handed to two builders; a read-only bind whose source file system is read-only as a whole only during set-up is written to after the file system became writable again.  A masked directory must not accept new files; a policy installed twice.",
  "C06": "  Container launches also carry exec and cgroup descriptors together, and an interpreter script as the executable descriptor.",
- "C07": "  Also setgroups refused in a user namespace.",
- "C09": "  Usage one microsecond over the bound, with an oracle on verdict and measurement.",
- "C10": "  A container killed under the host: each of 14 later calls must fail within seconds; a planted FIFO is opened through the RPC.",
- "C12": "  Launches with refused id maps; callbacks failing after the program built its tree, with the init's children counted right after the run.",
+ "C07": "  Also setgroups refused in a user namespace.  Histories of launches in one container (callback before / after exec, refusing, context cancelled beforehand): a configured callback is invoked exactly once before any exec result exists.",
+ "C09": "  Usage one microsecond over the bound, with an oracle on verdict and measurement.  Signals raised by a program that leaves its signal mask and dispositions as it found them.",
+ "C10": "  A container killed under the host: each of 14 later calls must fail within seconds; a planted FIFO is opened through the RPC.  Calls made while the container init is stopped or stalled.",
+ "C12": "  Launches with refused id maps; callbacks failing after the program built its tree, with the init's children counted right after the run.  Destroy of environments that are already broken or dead.",
  "C13": "  Writable mounts named as string prefixes of one another; executables larger than 128 MiB.",
  "C14": "  Open flags include O_NOFOLLOW / O_NONBLOCK; a batch with 25 KB of error text; batches of 253 and 254 succeeding items (the latter is the known finding).",
- "C16": "  The launch steps are repeated with a program that runs under other ids; a traced run without a filter is killed while its descendants run.",
- "C17": "  A call given up before it is made, next to other calls on its environment; an environment built on a thread whose later traced run fails to start.",
- "C18": "  Configurations built one after the other in one process (cmd/runprog/config.GetConf) are compared with the same configuration built alone.",
- "C19": "  Received messages stay in use until the end of their history (descriptor lists must not be reused); credentials may be asked for only at receive time.",
- "C20": "  Memory limits at the top of the range and off page boundaries; Destroy of a group that still has sub-groups.",
+ "C16": "  The launch steps are repeated with a program that runs under other ids; a traced run without a filter is killed while its descendants run.  Every process tree has a vfork+exec descendant; the controller is killed while the child of a traced launch is still in a 3000-mount set-up, with the check process as child subreaper.",
+ "C17": "  A call given up before it is made, next to other calls on its environment; an environment built on a thread whose later traced run fails to start.  The launching thread of 19 successful and failing starts is traced (strace) and every close is checked: each descriptor a start creates is closed exactly once, no close hits a number the start does not hold.",
+ "C18": "  Configurations built one after the other in one process (cmd/runprog/config.GetConf) are compared with the same configuration built alone.  Soft-ban sets made of the root entry alone; the refusal kind is compared exactly.",
+ "C19": "  Received messages stay in use until the end of their history (descriptor lists must not be reused); credentials may be asked for only at receive time.  Both directions of one socket in use at once; negative descriptor values.",
+ "C20": "  Memory limits at the top of the range and off page boundaries; Destroy of a group that still has sub-groups.  A pids limit of 0 and the suffixes of the statistics files.",
 }
 ROOT = os.path.dirname(os.path.dirname(os.path.abspath(__file__)))
 
